@@ -33,7 +33,7 @@ ASSUMPTIONS = [
     'optimizers needing absent libraries (polychord, dypolychord) and plugin components (ace, BHMie) cannot be discovered here and are not judged',
     'CLI differential: taurex.taurex.main() run in-process with -i -o -S on files the harness wrote (pickle cross-sections, pickle CIA); spectrum compared with the same components built through the library, rtol 1e-9',
 ]
-REQUIRED = {'two-mixins': 0.006, 'zero-valued-key': 0.05, 'part:sections': 0.12, 'part:cli': 0.06, 'part:selectors': 0.002, 'part:retrieval': 0.06, 'part:cli-retrieval': 0.03, 'negative': 0.05}
+REQUIRED = {'negative:miscased-contribution': 0.012, 'mixin-zero-valued-key': 0.012, 'two-mixins': 0.006, 'zero-valued-key': 0.05, 'part:sections': 0.12, 'part:cli': 0.06, 'part:selectors': 0.002, 'part:retrieval': 0.06, 'part:cli-retrieval': 0.03, 'negative': 0.05}
 # coverage-guided extra (thorough tier): pure-Python taurex modules on this property's path, instrumented by atheris
 FUZZ = {'include': ['taurex.parameter', 'taurex.util.util'], 'runs': 6000, 'workers': 4}
 
@@ -75,11 +75,16 @@ def _opt(strategy):
     return st.one_of(st.none(), strategy)
 
 
-STRATA = {'selectors': 1, 'cli-retrieval': 2, 'sections': 3, 'cli': 2, 'retrieval': 2}
+# 'part:variant' forces the composite-selector variant of that part (each variant gets its share of every run)
+STRATA = {'selectors': 1, 'cli-retrieval': 2, 'sections': 2, 'sections:mixin': 1, 'sections:mixin2': 0.5, 'sections:custom': 0.5, 'sections:negative': 1, 'cli': 2,
+          'retrieval': 2}
 
 
 @st.composite
 def _case(draw, part=None):
+    forced = None
+    if part and ':' in part:
+        part, forced = part.split(':')
     part = part or draw(S.pick(['selectors', 'cli-retrieval', 'sections', 'cli', 'retrieval', 'cli-retrieval', 'sections', 'cli', 'retrieval', 'sections']))
     c = {'part': part}
     if part == 'selectors':
@@ -118,9 +123,22 @@ def _case(draw, part=None):
                   'lee_mie_mix_ratio': draw(_opt(f(-16, -8))), 'lee_mie_bottomP': draw(_opt(f(3.0, 5.0))), 'lee_mie_topP': draw(_opt(f(0.5, 2.0)))}
     c['forms'] = draw(st.lists(NUMFORM, min_size=12, max_size=12))
     c['boolform'] = draw(S.ints(0, 3))
-    c['negative'] = draw(st.sampled_from([None, None, None, 'unknown-key', 'unknown-selector', 'unknown-contribution']))
+    c['negative'] = draw(st.sampled_from([None, None, None, 'unknown-key', 'unknown-selector', 'unknown-contribution', 'miscased-contribution']))
+    c['miscase'] = draw(S.ints(0, 5))
     c['neg_where'] = draw(st.sampled_from(['Temperature', 'Pressure', 'Chemistry', 'Model', 'Gas', 'Contribution', 'Planet', 'Star']))
-    c['composite'] = draw(st.sampled_from(['mixin2', None, 'mixin2r', None, 'mixin', 'custom', None]))
+    c['composite'] = draw(st.sampled_from(['mixin', None, 'mixin2', None, 'mixin', 'custom', 'mixin2r', None, 'mixin']))
+    if forced == 'negative':
+        c['negative'] = draw(S.pick(['miscased-contribution', 'unknown-key', 'unknown-selector', 'unknown-contribution', 'miscased-contribution']))
+        c['composite'] = None
+    elif forced:
+        c['composite'] = forced if forced != 'mixin2' else draw(st.sampled_from(['mixin2', 'mixin2r']))
+        c['negative'] = None
+        if forced == 'mixin2':
+            c['temp'] = 'isothermal'
+        elif forced == 'mixin':
+            c['temp'] = draw(st.sampled_from(['guillot', 'isothermal', 'guillot2010']))
+    # the scale factor given to a `tempscalar+<base>` selector (one of the mixin's own constructor keywords); exactly zero is a value too
+    c['scale_factor'] = draw(st.sampled_from([0.0, 1.0, 2.5, 0.0, None]))
     c['tables'] = draw(st.lists(S.table(6, mag='mixed'), min_size=3, max_size=3))
     c['wn0'] = draw(f(300.0, 4000.0))
     c['dwn'] = draw(f(5.0, 300.0))
@@ -411,8 +429,8 @@ def build_par(c, tmp, W):
     tk = c['tkeys']
     tclass = {'isothermal': 'Isothermal', 'guillot': 'Guillot2010', 'guillot2010': 'Guillot2010', 'npoint': 'NPoint'}[tsel]
     sel_text = tsel
-    if c['composite'] == 'mixin' and tsel == 'isothermal':
-        sel_text = 'tempscalar+isothermal'
+    if c['composite'] == 'mixin' and tsel in ('isothermal', 'guillot', 'guillot2010'):
+        sel_text = 'tempscalar+' + tsel
     if c['composite'] in ('mixin2', 'mixin2r') and tsel == 'isothermal':
         # two mixins that do not commute (documented example: doubler, add50), in either order
         load_order_mixins()
@@ -438,7 +456,13 @@ def build_par(c, tmp, W):
             lines.append('%s = %s' % (k, num(val_)))
             e[k] = float(val_)
     if sel_text.startswith('tempscalar'):
-        lines.append('scale_factor = 1.0')
+        # a scale factor of zero makes a zero-kelvin profile: only where the model is built, not run
+        sf = c.get('scale_factor', 1.0)
+        if sf == 0.0 and c.get('part') != 'sections':
+            sf = 1.0
+        if sf is not None:
+            lines.append('scale_factor = %s' % num(sf))
+        expect['__mixin__'] = (dict(e), 1.0 if sf is None else float(sf), tsel, sel_text)
     elif sel_text.startswith('verif'):
         pass
     else:
@@ -525,6 +549,19 @@ def inject_negative(lines, c):
     if kind == 'unknown-contribution':
         out_lines.append('    [[NoSuchContribution]]')
         return out_lines, 'Model'
+    if kind == 'miscased-contribution':
+        # a documented contribution keyword in another letter case, for a contribution the file does not otherwise hold:
+        # not one of the documented names, so an error -- or, were names matched without regard to case, that
+        # contribution built; never a model silently lacking it
+        for name, klass in [('rayleigh', 'RayleighContribution'), ('RAYLEIGH', 'RayleighContribution'), ('absorption', 'AbsorptionContribution'),
+                            ('simpleclouds', 'SimpleCloudsContribution'), ('Rayleigh ', None), ('cia', 'CIAContribution')][c.get('miscase', 0) % 6:]:
+            if klass is None or any(l.strip().lower() == '[[%s]]' % name.lower() for l in out_lines):
+                continue
+            out_lines.append('    [[%s]]' % name)
+            if klass == 'CIAContribution':
+                out_lines.append('    cia_pairs = H2-H2,')
+            return out_lines, 'Model:' + klass
+        return None, None
     header = {'Gas': None, 'Contribution': '    [[Absorption]]'}.get(where, '[%s]' % where)
     if where == 'Gas':
         idx = [i for i, l in enumerate(out_lines) if l.startswith('    gas_type')]
@@ -607,6 +644,7 @@ def check_sections(out, c, tmp, run_cli):
     synth.reset_world()
     W = write_data(c, tmp)
     lines, expect = build_par(c, tmp, W)
+    mixin_expect = expect.pop('__mixin__', None)
     negative = c['negative'] if not run_cli else None
     where = None
     if negative:
@@ -661,7 +699,14 @@ def check_sections(out, c, tmp, run_cli):
             failed = e
     if negative:
         out.applies('unknown-is-error')
-        if failed is None:
+        if negative == 'miscased-contribution':
+            out.cls('negative:miscased-contribution')
+        if failed is None and negative == 'miscased-contribution':
+            want_k = where.split(':')[1]
+            if not any(type(x).__name__ == want_k for x in model.contribution_list):
+                out.fail('unknown-is-error@miscased-contribution', 'section %s was accepted and the model holds no %s (contributions: %s)'
+                         % (lines[-1].strip() if not lines[-1].strip().startswith('cia_pairs') else lines[-2].strip(), want_k, [type(x).__name__ for x in model.contribution_list]))
+        elif failed is None:
             out.fail('unknown-is-error@%s,%s' % (negative, c['neg_where']), 'the input file was accepted')
         return nondefault >= 3
     if failed is not None:
@@ -716,9 +761,27 @@ def check_sections(out, c, tmp, run_cli):
         from taurex.temperature import Isothermal
         from taurex.mixin.mixins import TempScaler
         out.applies('mixin-selector')
-        wantT = c['tkeys']['T'] if c['tkeys']['T'] is not None else 1500
-        if not isinstance(tp, Isothermal) or not isinstance(tp, TempScaler) or not values_equal(tp.isoTemperature, wantT):
-            out.fail('mixin-selector', 'tempscalar+isothermal built %s with T=%r' % ([k.__name__ for k in type(tp).__mro__[:4]], getattr(tp, 'isoTemperature', None)))
+        from taurex.temperature import Guillot2010
+        tsel, sel_text = mixin_expect[2:]
+        base = Isothermal if tsel == 'isothermal' else Guillot2010
+        if not isinstance(tp, base) or not isinstance(tp, TempScaler):
+            out.fail('mixin-selector', '%s built %s' % (sel_text, [k.__name__ for k in type(tp).__mro__[:4]]))
+        else:
+            # every key of the section reaches the constructor it belongs to (the base class's or the mixin's), omitted
+            # ones keep that constructor's default -- exactly as for a plain selector
+            defaults = {'T': 1500, 'T_irr': 1500, 'kappa_irr': 0.01, 'kappa_v1': 0.005, 'kappa_v2': 0.005, 'alpha': 0.5, 'T_int': 100}
+            attr = {'T': 'isoTemperature', 'kappa_irr': 'kappa_ir'}
+            given, sf_want = mixin_expect[:2]
+            for k_ in (['T'] if tsel == 'isothermal' else ['T_irr', 'kappa_irr', 'kappa_v1', 'kappa_v2', 'alpha', 'T_int']):
+                want_ = given.get(k_, defaults[k_])
+                got_ = getattr(tp, attr.get(k_, k_), None)
+                if not values_equal(got_, want_):
+                    out.fail('mixin-selector@%s,%s' % (k_, 'zero' if want_ == 0 else ('given' if k_ in given else 'default')),
+                             '%s: %s written as %r, the object holds %r' % (sel_text, k_, given.get(k_, 'omitted'), got_))
+            if not values_equal(tp.scaleFactor, sf_want):
+                out.fail('mixin-selector@scale_factor,%s' % ('zero' if sf_want == 0 else 'given'), '%s: scale_factor %r, the object holds %r' % (sel_text, sf_want, tp.scaleFactor))
+            if sf_want == 0 or any(v == 0 for v in given.values()):
+                out.cls('mixin-zero-valued-key')
     if any(l.startswith('profile_type = verif') for l in lines):
         out.cls('two-mixins')
         out.applies('mixin-order')
